@@ -1,0 +1,16 @@
+//go:build verif
+
+package hopclient
+
+import "hop.computer/hop/tubes"
+
+// VerifRunPrincipal runs the principal side of one delegation exactly as
+// HandleTubes does once it has accepted the delegate's authgrant tube and the
+// unreliable proxy tube (verification harness only).
+func (c *HopClient) VerifRunPrincipal(delTube *tubes.Reliable, proxyTube *tubes.Unreliable) {
+	pq := newPTProxyTubeQueue()
+	pq.lock.Lock()
+	pq.tubes[proxyTube.GetID()] = proxyTube
+	pq.lock.Unlock()
+	c.newPrincipalInstanceSetup(delTube, pq)
+}
